@@ -81,6 +81,8 @@ type TplImg struct {
 // Cfg (img, imgfile, imgnoelem, TplImg): k>0 = the call passes the case's k-th shared *ImageConfig object, created from Size/Look
 // of the first step that names k; later steps that name k pass the same object (their own Size/Look are not used).
 // Med/MedK (renumber): how the other producer named the media parts (mediaedit.go).
+// NoSty (renumber): the other producer's package has no styles part; the id its relationship had is unused or belongs to
+// another relationship of the main part (nostyles.go).
 // Merge (render): the entries of the step are set in a TemplateData of their own that is Merge()d into the render's TemplateData;
 // Clear (render): TemplateData.Clear() is called on the render's TemplateData before the entries are set.
 type Step struct {
@@ -103,6 +105,7 @@ type Step struct {
 	Cfg   int      `json:"cfg,omitempty"`
 	Med   int      `json:"med,omitempty"`
 	MedK  int      `json:"medk,omitempty"`
+	NoSty int      `json:"nosty,omitempty"`
 	Merge bool     `json:"merge,omitempty"`
 	Clear bool     `json:"clear,omitempty"`
 }
